@@ -1,0 +1,14 @@
+//go:build !verif
+
+// Package verifhook holds the instrumentation points used by the deterministic
+// simulation harness. Without the build tag "verif" every function is an empty,
+// inlinable no-op, so the shipped binary is unchanged.
+package verifhook
+
+func Acquire(owner any, kind string, obj any)  {}
+func Release(owner any, kind string, obj any)  {}
+func Point(owner any, name string)             {}
+func Fault(owner any, name string) error       { return nil }
+func Go(owner any, name string)                {}
+func Access(owner any, obj string, write bool) {}
+func Knob(name string, def int) int            { return def }
